@@ -386,7 +386,7 @@ func c16Oracle(info *runInfo, res *verifsim.Result) {
 			continue
 		}
 		in, _ := modelFor(info, h, w)
-		if in == nil {
+		if in == nil || in.ambiguous {
 			continue
 		}
 		c16Check(res, info, w.ra, *in, fmt.Sprintf("RA #%d to %s at %s", w.seq, w.dst, ms(w.t)), last, lastT)
